@@ -226,6 +226,17 @@ def match_known(pid, sig):
             return k
     return None
 
+def report_error(chk, stage, x):
+    """An exception while running a case: raised inside the repository's code
+    -> candidate violation (C20-like crash); raised by the harness itself ->
+    the check is broken at that point, never a finding."""
+    e = x['error']
+    if e.get('in_repo', True):
+        chk.violation(dict(stage=stage, exception=e['exception'], raised_in=e['raised_in']),
+                      'real code raised %s: %s' % (e['exception'], e['message']), x.get('spec'))
+    else:
+        chk.tie_broken('harness-error', stage, '%s: %s' % (e['exception'], e['message']))
+
 class Check:
     """Collects what one vcheck run established."""
     def __init__(self, pid, tier, seed):
